@@ -76,7 +76,11 @@ Seeds == {
        oneOf |-> << Sch([type |-> "object", title |-> "Thing", minProperties |-> 2]) >>,
        allOf |-> << Sch([type |-> "object", title |-> "Thing"]) >>,
        properties |-> << <<"a", Sch([type |-> "object", title |-> "Thing", maxProperties |-> 2])>> >>,
-       patternProperties |-> << <<"^a", Sch([type |-> "object", title |-> "Thing", maxProperties |-> 1])>> >>])
+       patternProperties |-> << <<"^a", Sch([type |-> "object", title |-> "Thing", maxProperties |-> 1])>> >>]),
+  (* two differently named object classes of identical shape in one tree *)
+  Sch([type |-> "object", title |-> "T",
+       properties |-> << <<"a", Sch([type |-> "object", properties |-> << <<"b", Ty("string")>> >>])>>,
+                         <<"b", Sch([type |-> "object", properties |-> << <<"b", Ty("string")>> >>])>> >>])
 }
 InitSeeds == doc \in Seeds /\ budget = SeedLevels
 SeedSpec == InitSeeds /\ [][Next]_vars
